@@ -97,8 +97,8 @@ package ociclient
 //@ func newBlobReader
 //@   log
 //@   requires r != nil && desc.Digest != "" && ociref.IsValidDigest(string(desc.Digest))
-//@   ensures result != nil && result.verify && result.desc == desc && result.n == 0 && result.r == r &&
-//@     result.digester != nil && hashed(result.digester) == ""
+//@   ensures[a-fresh-hash-of-the-descriptor-algorithm] result != nil && result.verify && result.desc == desc && result.n == 0 && result.r == r &&
+//@     result.digester != nil && hashed(result.digester) == "" && hashAlg(result.digester) == desc.Digest.Algorithm()
 //@ func newBlobReaderUnverified
 //@   log
 //@   requires r != nil && desc.Digest != "" && ociref.IsValidDigest(string(desc.Digest))
@@ -113,6 +113,10 @@ package ociclient
 // descriptor's digest; an over-long body fails as soon as it is noticed.
 //@ invariant (*blobReader) self != nil && self.r != nil && self.digester != nil
 //@ invariant (*blobReader) self.n == len(hashed(self.digester))
+// the hash of a verifying reader is one of the descriptor's own algorithm
+// (hashAlg(h): the algorithm a hash object was created for; go-digest's
+// NewDigest(alg, h) is the digest only for a hash of that algorithm)
+//@ invariant (*blobReader) self.verify ==> hashAlg(self.digester) == self.desc.Digest.Algorithm()
 
 // What goes into the hash is exactly what the source put into the caller's
 // buffer on this call.
